@@ -77,9 +77,12 @@ def instantiate_type(
     if scoped_template:
         # Create a copy of the instantiation so we can modify it.
         instantiation = deepcopy(instantiations[scoped_idx])
-        # Replace the part of the template with the instantiation
-        instantiation.name = str_arg_typename.replace(scoped_template,
-                                                      instantiation.name)
+        # Replace the (first) scope component naming the template with the
+        # instantiation; a plain substring replace would also rewrite
+        # identifiers that merely contain the template's spelling.
+        scopes = str_arg_typename.split("::")
+        scopes[scopes.index(scoped_template)] = instantiation.name
+        instantiation.name = "::".join(scopes)
         return parser.Type(
             typename=instantiation,
             is_const=ctype.is_const,
